@@ -8,16 +8,19 @@ CHECK = {'rule': 'rapid-generated loop runs: tree shape (empty, deep, minimal, r
  'assumptions': ['hooks fsloop.consumer.gap / fsloop.close.announced exist (hook hit counters in evidence; zero hits degrade the check to plain '
                  'stress)',
                  'a Wait that does not return within 30 s is inconclusive (the statement does not promise termination)'],
- 'essential_labels': {'all': ['two-callback-errors-with-a-read-of-the-list-between', 'held-in-gap-until-close',
+ 'essential_labels': {'all': ['errlist:strict', 'two-callback-errors-with-a-read-of-the-list-between', 'held-in-gap-until-close',
                               'producer-released-while-consumers-parked',
                               'injected-error',
                               'consumers=1',
                               'consumers=5+']},
- 'tiers': {'quick': [{'test': '^TestProp$', 'checks': 900, 'shards': 6, 'timeout': 240}],
-           'thorough': [{'test': '^TestProp$', 'checks': 9000, 'shards': 16, 'timeout': 3000}]}}
+ 'tiers': {'quick': [{'test': '^TestProp$', 'checks': 900, 'shards': 6, 'timeout': 240},
+                     {'test': '^TestPropErrList$', 'checks': 40, 'shards': 2, 'timeout': 240, 'seed_offset': 300}],
+           'thorough': [{'test': '^TestProp$', 'checks': 9000, 'shards': 16, 'timeout': 3000},
+                        {'test': '^TestPropErrList$', 'checks': 1500, 'shards': 4, 'timeout': 3000, 'seed_offset': 300}]}}
 
 TEXT = {'technique': 'schedule-directed property testing (rapid): generated trees/filters/limits/delays/errors plus a generated plan for two verif yield '
-              'points and a gated source; callback multiset vs. model walk, concurrency bound, Wait ordering',
+              'points and a gated source; callback multiset vs. model walk, concurrency bound, Wait ordering; the loop\'s error list is polled from inside callbacks and, as '
+              'an object (jobsync.Lifecycle), hammered by concurrently failing callbacks and readers',
  'level_text': 'Exploration with a directed schedule: the generated plan parks consumers in the window between the emptiness test and the close test '
                'while a gated listing lets the producers finish, which makes the lost-item interleaving deterministic; all other interleavings are '
                'sampled under GOMAXPROCS 1/2/4/16.',
